@@ -32,6 +32,9 @@ manifest).
 * `manifest_segments_exist_after_compaction` — also under read corruption (a `get` returning a
   mangled body once): a skipped segment stays listed and stays in the store;
   `delete_selected_counterexample` for the variant that deletes what it selected.
+* `compaction_never_adopts_unlisted_object` — orphans of failed flushes (unlisted objects) have
+  no influence on what a pass leaves behind; `skip_upload_if_exists_counterexample` for the
+  variant that skips its upload when the name is taken.
 * `failed_flush_keeps_buffer_current`, `no_update_vanishes_current` — the current `flush` puts
   the taken deltas back on every error path; `failed_flush_drops_buffer_counterexample` for the
   pinned commit — fixed defect.
@@ -278,7 +281,7 @@ theorem no_update_vanishes (fl : Flags) (hr : fl.restoreBuffer = true) (F : Orac
     transiently -/
 def getFaultOps : List Op :=
   [.push (c12Delta 107 8 46), .flush 137, .push (c12Delta 233 9 48), .flush 127,
-   .compact { target := 1048576, minSegs := 1, maxPer := 3, cutoff := 0 } 127]
+   .compact { target := 1048576, minSegs := 1, maxPer := 3, now := 0, ttlMs := 0 } 127]
 
 def getFaultOracle : Oracle := fun n => if n = 9 then .fail else .ok
 
@@ -484,7 +487,7 @@ def compactDeleteSelected (F : Oracle) (cfg : CompactCfg) (sz : Nat) (w : World)
 def skipOps : List Op :=
   [.push (c12Delta 107 1 5), .flush 100, .push (c12Delta 108 2 6), .flush 100, .push (c12Delta 109 3 7), .flush 100]
 def skipOracle : Oracle := fun n => if n = 14 then .readCorrupt else .ok
-def skipCfg : CompactCfg := { target := 1000, minSegs := 2, maxPer := 5, cutoff := 0 }
+def skipCfg : CompactCfg := { target := 1000, minSegs := 2, maxPer := 5, now := 0, ttlMs := 0 }
 
 /-- **delete-selected-instead-of-removed counterexample** (seed C12-compaction-deletes-skipped-
     segment-files): segment 1 is skipped by the pass (its read was mangled) and stays listed;
@@ -500,13 +503,105 @@ theorem delete_selected_counterexample :
       (fun _ => True) := by
   decide
 
+
+/-! ## unlisted objects (orphans of failed flushes) -/
+
+/-- the recovered state (`none`: recovery fails) -/
+def recFold (st : Store) (rid : Nat) : Option (NMap RV) :=
+  match recover st rid with
+  | .ok r => some (foldState r.updates)
+  | .error _ => none
+
+/-- **compaction_never_adopts_unlisted_object** (current tree, no tombstone GC, every oracle): an
+    object under an unreferenced name — e.g. the orphan `segment-N` a failed or crashed flush left
+    behind, N being the id the compaction is about to allocate — has no influence on what the
+    store recovers to after the pass: the segment written under id N holds the merged content
+    whatever was there, and recovery equals recovery before the pass. -/
+theorem compaction_never_adopts_unlisted_object (F : Oracle) (cfg : CompactCfg) (sz : Nat) (w : World)
+    (rid : Nat) (hinv : StoreInv w.store) (hc : Coherent (content w.store)) (hgc : cfg.cutoff = 0)
+    (n : Nat) (o : Obj) (hn : Unref w.store n) :
+    recFold (compact F cfg sz { w with store := NMap.insert n o w.store }).1.store rid = recFold w.store rid := by
+  have hfr := frame (agree_insert w.store n o) (fun k hk => by rw [hk]; exact hn) hinv
+  have hc2 : Coherent (content (NMap.insert n o w.store)) := by rw [hfr.2]; exact hc
+  let c := carrierOf (content (NMap.insert n o w.store)) hc2
+  have hcar := inCar_of_coherent hc2
+  have hp := compact_fold_preserved c repairedCompact F cfg sz { w with store := NMap.insert n o w.store } hfr.1 hcar
+    (goodAcc_repaired repairedCompact rfl rfl F cfg hgc _ hfr.1)
+  have hinv' := (compact_spec repairedCompact F cfg sz { w with store := NMap.insert n o w.store } hfr.1).1
+  have key : ∀ (st : Store) (hi : StoreInv st) (hcr : InCar c (content st)),
+      recFold st rid = some (foldState (content st)) := by
+    intro st hi hcr
+    obtain ⟨r, hr⟩ := recover_ok_of_storeInv hi rid
+    unfold recFold
+    rw [hr]
+    simp only [Option.some.injEq]
+    exact (foldState_eq_of_same_set_inCar c hcr (fun e => (recover_updates_of_storeInv hi hr e).symm)).symm
+  have h1 := key _ hinv' hp.2
+  have h2 := key w.store hinv (by rw [← hfr.2]; exact hcar)
+  show recFold (compactWith repairedCompact F cfg sz _).1.store rid = _
+  rw [h1, h2, hp.1, hfr.2]
+
+/-- the seeded variant: the upload of the compacted segment is skipped when an object already
+    exists under its name ("a retry finds it already uploaded") -/
+def compactSkipUploadIfExists (F : Oracle) (cfg : CompactCfg) (sz : Nat) (w : World) : World × CompactOut :=
+  match loadOrCreate F w 0 with
+  | (w1, none) => (w1, .error)
+  | (w1, some m) =>
+    let sel := selectSegments cfg m
+    if sel.length < cfg.minSegs then (w1, .nothing) else
+    let r := loadLoop current.compact F w1 LoadAcc.init sel
+    let acc := r.2
+    if acc.failed then (r.1, .error) else
+    let ids := acc.actually.map (·.id)
+    let kept := keptOf cfg acc.ktd
+    if kept.isEmpty then (r.1, .nothing) else
+    let deltas := sortBy (fun d : Delta => d.2.ts.time) kept
+    let id := m.next
+    -- `if !store.exists(key)? { store.put(key, data)? }`
+    let up : World × Res Unit :=
+      match r.1.probe F (segName id) with
+      | (w2, .ok true) => (w2, .ok ())
+      | (w2, .ok false) => w2.put F (segName id) (.segment deltas)
+      | (w2, .err e) => (w2, .err e)
+    match up with
+    | (w3, .err _) => (w3, .error)
+    | (w3, .ok _) =>
+      let info : SegInfo :=
+        { id := id, count := deltas.length, size := sz, minTs := minTime deltas, maxTs := maxTime deltas }
+      let m' : Manifest :=
+        { ({ m with segments := removeIds m ids } : Manifest).addSegment info with next := id + 1 }
+      match saveManifest F w3 m' with
+      | (w4, false) => (w4, .error)
+      | (w4, true) => (deleteAll F w4 acc.actually, .compacted ids id deltas.length 0)
+
+/-- flush A ok, flush B ok, flush C: the segment put succeeds, the manifest temp put (store call
+    10) fails — segment-00000002 stays behind as an unlisted orphan holding only C's update -/
+def orphanOps : List Op :=
+  [.push (c12Delta 107 1 5), .flush 100, .push (c12Delta 108 2 6), .flush 100, .push (c12Delta 109 3 7), .flush 100]
+def orphanOracle : Oracle := fun n => if n = 10 then .fail else .ok
+def orphanCfg : CompactCfg := { target := 1000, minSegs := 2, maxPer := 5, now := 0, ttlMs := 0 }
+
+/-- **skip_upload_if_exists_counterexample** (seed C12-compaction-skips-upload-if-key-exists):
+    the current compaction overwrites the orphan and recovery keeps A and B; the variant adopts
+    the orphan as the compacted segment: every object validates, recovery succeeds — and returns
+    only the UNCONFIRMED update of the failed flush; A and B, both confirmed, are gone. -/
+theorem skip_upload_if_exists_counterexample :
+    (run orphanOracle (Sys.init [] 1) orphanOps).acked = [c12Delta 107 1 5, c12Delta 108 2 6] ∧
+    NMap.get (run orphanOracle (Sys.init [] 1) orphanOps).w.store (segName 2) = some (.segment [c12Delta 109 3 7]) ∧
+    recFold (compact (fun _ => .ok) orphanCfg 100 (run orphanOracle (Sys.init [] 1) orphanOps).w).1.store 1
+      = some [c12Delta 107 1 5, c12Delta 108 2 6] ∧
+    refsComplete (compactSkipUploadIfExists (fun _ => .ok) orphanCfg 100 (run orphanOracle (Sys.init [] 1) orphanOps).w).1.store = true ∧
+    recFold (compactSkipUploadIfExists (fun _ => .ok) orphanCfg 100 (run orphanOracle (Sys.init [] 1) orphanOps).w).1.store 1
+      = some [c12Delta 109 3 7] := by
+  decide
+
 /-! ## non-vacuity -/
 
 /-- a run with a torn segment put (call 5), a later successful flush and a compaction: the
     hypotheses hold and something is confirmed -/
 def exOps : List Op :=
   [.push (c12Delta 97 1 5), .flush 100, .push (c12Delta 98 2 6), .flush 100, .push (c12Delta 97 3 7),
-   .flush 100, .compact { target := 1000, minSegs := 2, maxPer := 5, cutoff := 0 } 150]
+   .flush 100, .compact { target := 1000, minSegs := 2, maxPer := 5, now := 0, ttlMs := 0 } 150]
 
 def exOracle : Oracle := fun n => if n = 5 then .failPartial else .ok
 
